@@ -37,6 +37,12 @@ func (p *Prog) BackSlice(v ssa.Value) map[ssa.Value]bool {
 				walk(b)
 			}
 		}
+		if al, ok := x.(*ssa.Alloc); ok {
+			// the address of a local: what was stored there flows to whoever uses the address
+			for _, st := range p.storesTo(al) {
+				walk(st.Val)
+			}
+		}
 		in, ok := x.(ssa.Instruction)
 		if !ok {
 			return
